@@ -379,3 +379,103 @@ def struct_case(rng, script, extra_ops=None, objs=None, host_fns=("t",)):
     ops = ["addfn:%s:void" % hx(f) for f in host_fns] + ["addfn:%s:arg0" % hx("u")]
     ops += extra_ops if extra_ops is not None else ["prepare:opt", "exec:0"]
     return {"script": hx(script), "objs": ";".join(objs), "ops": ";".join(ops)}
+
+# ---------------------------------------------------------------- feature-focused random programs (model-judged)
+def _lit(v):
+    if v is None:
+        return "null_"           # an unset variable: null
+    if isinstance(v, bool):
+        return "true" if v else "false"
+    if isinstance(v, int):
+        return str(v) if v >= 0 else "(0 - %d)" % -v
+    if isinstance(v, float):
+        s = repr(abs(v))
+        s = s if "e" not in s and "inf" not in s and "nan" not in s else "1.5"
+        return s if v >= 0 else "(0 - %s)" % s
+    if isinstance(v, str):
+        return '"' + v.replace("\\", "\\\\").replace('"', '\\"').replace("\n", "\\n") + '"'
+    if isinstance(v, list):
+        return "[" + ", ".join(_lit(x) for x in v) + "]"
+    if isinstance(v, dict):
+        return "{" + ", ".join("%s: %s" % (_lit(k), _lit(x)) for k, x in v.items()) + "}"
+    raise ValueError(v)
+
+SCALARS = [0, 1, 2, 7, -1, -3, 10, 65535, 65536, 0.5, 1.5, 1.25, 2.5, -0.5, 10.0, "", "a", "b", "ab", "1", "1.5", "héllo", "A", "10", "9", True, False, None]
+KEYS = [0, 1, 2, 10, -1, 0.5, 1.5, 1.25, 2.5, "a", "b", "1", "1.5", "", "ab"]
+
+def rand_scalar(rng):
+    return rng.choice(SCALARS)
+
+def rand_array(rng, depth=1):
+    return [rand_scalar(rng) if depth == 0 or rng.random() < 0.8 else rand_array(rng, depth - 1) for _ in range(rng.choice([0, 1, 2, 3, 3, 5]))]
+
+def rand_hash(rng):
+    return {rng.choice(KEYS): (rand_scalar(rng) if rng.random() < 0.85 else rand_array(rng, 0)) for _ in range(rng.choice([0, 1, 2, 3, 4]))}
+
+def container_program(rng):
+    """containers built from literals, then indexed / searched / measured / iterated; results collected in r"""
+    st = ["arr = %s;" % _lit(rand_array(rng)), "h = %s;" % _lit(rand_hash(rng)), "s = %s;" % _lit(rng.choice(["", "a", "abc", "héllo", "日本語", "a b"])),
+          "rg = %d..%d;" % (rng.choice([0, 1, 3]), rng.choice([3, 4, 6])), "r = []; n = 0;"]
+    C = ["arr", "h", "s", "rg", "Tags", "Nums", "Meta", "Name"]
+    for _ in range(rng.randint(2, 7)):
+        c = rng.choice(C)
+        k = _lit(rng.choice(KEYS + [3, 4, 5, -2, 99]))
+        st.append(rng.choice([
+            "r = [r, %s[%s]];" % (c, k), "r = [r, len(%s)];" % c, "r = [r, (%s in %s)];" % (_lit(rand_scalar(rng)), c),
+            "foreach v in %s { n++; r = [r, v]; }" % c, "foreach k, v in %s { n++; r = [r, k, v]; }" % c,
+            "foreach a in %s { foreach b in %s { n++; } }" % (c, rng.choice(C)), "r = [r, keys(%s)];" % c, "r = [r, string(%s)];" % c,
+            "r = [r, type(%s[%s])];" % (c, k), "foreach k, v in %s { if (k == %s) { r = [r, v]; } }" % (c, k), "r = [r, sort(%s)];" % c,
+            "r = [r, reverse(%s)];" % c, "foreach v in %s { t(v); }" % c, "x = %s; r = [r, x[%s], len(x)];" % (c, k), "r = [r, %s == %s];" % (c, rng.choice(C)),
+            "h2 = {%s: %s, %s: %s}; r = [r, h2[%s], len(h2), keys(h2)];" % (k, _lit(rand_scalar(rng)), _lit(rng.choice(KEYS)), _lit(rand_scalar(rng)), k),
+            "r = [r, join(%s, \",\")];" % c, "r = [r, split(%s, \"\")];" % c,
+        ]))
+    st.append("return [r, n];")
+    return " ".join(st)
+
+BUILTIN_NAMES = ["len", "lower", "upper", "trim", "string", "int", "float", "type", "min", "max", "between", "sort", "reverse", "join", "split", "keys",
+                 "match", "replace", "hour", "minute", "seconds", "day", "month", "year", "weekday", "now", "time", "sprintf", "getenv", "panic_"]
+
+def builtin_program(rng):
+    st = ["r = [];"]
+    for _ in range(rng.randint(1, 5)):
+        f = rng.choice(BUILTIN_NAMES)
+        if f in ("now", "time", "getenv", "panic_", "sprintf"):
+            f = rng.choice(["len", "int", "float", "min", "max", "between", "sort", "string", "type"])
+        nargs = rng.choice([0, 1, 1, 1, 2, 2, 3, 4])
+        args = []
+        for _ in range(nargs):
+            x = rng.random()
+            args.append(_lit(rand_scalar(rng)) if x < 0.5 else _lit(rand_array(rng, 0)) if x < 0.65 else _lit(rand_hash(rng)) if x < 0.72
+                        else rng.choice(["Name", "Count", "Ratio", "Active", "Tags", "Nums", "Meta", "When", "nosuch"]) if x < 0.9
+                        else rng.choice(["/a/", "/^b/i", "\"[0-9]+\"", "\"%d\"", "\",\""]))
+        st.append("r = [r, %s(%s)];" % (f, ", ".join(args)))
+    st.append("return r;")
+    return " ".join(st)
+
+def truth_program(rng):
+    """values of every type flowing through conditions, logic operators and negation"""
+    vals = [_lit(rand_scalar(rng)) if rng.random() < 0.6 else _lit(rand_array(rng, 0)) if rng.random() < 0.5 else _lit(rand_hash(rng)) for _ in range(3)]
+    vals += ["Name", "Count", "Active", "Tags", "Meta", "nosuch", "u(%s)" % _lit(rand_scalar(rng))]
+    def cond(d):
+        x = rng.random()
+        a = rng.choice(vals)
+        if d == 0 or x < 0.3:
+            return a
+        if x < 0.45:
+            return "!" + cond(d - 1)
+        if x < 0.6:
+            return "(%s && %s)" % (cond(d - 1), cond(d - 1))
+        if x < 0.75:
+            return "(%s || %s)" % (cond(d - 1), cond(d - 1))
+        if x < 0.85:
+            return "(%s == %s)" % (a, rng.choice(vals))
+        if x < 0.92:
+            return "(%s ? %s : %s)" % (cond(0), rng.choice(vals), rng.choice(vals))
+        return "(%s < %s)" % (a, rng.choice(vals))
+    st = ["r = [];"]
+    for _ in range(rng.randint(1, 4)):
+        c = cond(rng.randint(0, 3))
+        st.append(rng.choice(["if (%s) { r = [r, 1]; } else { r = [r, 0]; }", "r = [r, %s ? 1 : 0];", "w = 0; while (%s) { w++; if (w > 1) { return [r, w]; } }",
+                              "r = [r, !%s];", "r = [r, %s];", "if (%s) { r = [r, 2]; }"]) % c)
+    st.append(rng.choice(["return r;", "return %s;" % cond(2)]))
+    return " ".join(st)
